@@ -4,7 +4,7 @@ import os
 import ssl
 
 from .. import approute, tlsrig
-from ..runner import HarnessError, Obs, exc_bucket
+from ..runner import REPO, HarnessError, Obs, exc_bucket
 
 ID = "C11"
 LEVEL = "exploration"
@@ -93,6 +93,8 @@ class _CountingSockets:
 def run_case(c):
     import websocket
 
+    if "pair" in c:
+        return run_race(c)
     obs = Obs()
     rig = tlsrig.rig()
     rig.settle(2.0)
@@ -130,6 +132,31 @@ def run_case(c):
         os.environ["WEBSOCKET_CLIENT_CA_BUNDLE"] = os.path.join(FIX, "capath")
     elif c.get("env") == "nonexistent":
         os.environ["WEBSOCKET_CLIENT_CA_BUNDLE"] = os.path.join(FIX, "does-not-exist.pem")
+    swapdir = None
+    if c.get("swap"):
+        # the trust store changes on disk between two connections of the process (a rotated CA bundle at the same path):
+        # an earlier connection is made while the file holds the rogue CA, then the file gets the content the case is about
+        import shutil
+        import tempfile
+
+        swapdir = tempfile.mkdtemp(prefix="wsverif-ca-")
+        bundle = os.path.join(swapdir, "bundle.pem")
+        shutil.copyfile(os.path.join(FIX, "rogueca.pem"), bundle)
+        if c["trust"] == "ca_certs=testca":
+            sslopt["ca_certs"] = bundle
+        elif c.get("env") == "file":
+            os.environ["WEBSOCKET_CLIENT_CA_BUNDLE"] = bundle
+        else:
+            raise HarnessError("swap needs a CA file")
+        try:
+            pre = websocket.create_connection(f"wss://localhost:{rig.tls['rogue'].port}/earlier", timeout=5, sslopt=dict(sslopt))
+            pre.close()
+        except Exception:  # noqa: BLE001 - the earlier connection is not judged
+            pass
+        shutil.copyfile(os.path.join(FIX, "testca.pem"), bundle)
+        rig.settle(2.0)
+        rig.clear()
+        before = {id(e): e.counts()[1] for e in rig.all()}
     kw = {}
     if c["proxy"]:
         kw.update(http_proxy_host="127.0.0.1", http_proxy_port=rig.proxy.port)
@@ -180,6 +207,10 @@ def run_case(c):
                     pass
     finally:
         _H.socket = real_socket_mod
+        if swapdir is not None:
+            import shutil
+
+            shutil.rmtree(swapdir, ignore_errors=True)
         if c.get("no_ssl"):
             _H.HAVE_SSL = had_ssl
         for k, v in saved.items():
@@ -271,9 +302,85 @@ def run_case(c):
             obs.fail(f"{tag}|sni", f"SNI {rec['sni']!r}, expected {want_sni!r}; cfg={c}")
     active = secure and (exp == "config-error" or not c["trust"] == "ctx-unverified" and not (c.get("cert_reqs") == "NONE"))
     obs.cls = (c["scheme"], "proxy" if c["proxy"] else "direct", f"cert:{c['cert']}", f"trust:{c['trust']}", f"exp:{exp}", f"why:{why}",
-               f"cert_reqs:{c.get('cert_reqs')}", f"check_hostname:{c.get('check_hostname')}", f"server_hostname:{c.get('server_hostname')}", f"env:{c.get('env')}", f"ssl_version:{c.get('ssl_version')}", f"api:{c.get('api', 'connect')}")
+               f"cert_reqs:{c.get('cert_reqs')}", f"check_hostname:{c.get('check_hostname')}", f"server_hostname:{c.get('server_hostname')}", f"env:{c.get('env')}", f"ssl_version:{c.get('ssl_version')}", f"api:{c.get('api', 'connect')}", f"ca-bundle-replaced-on-disk:{int(bool(c.get('swap')))}")
     obs.nt = repr(sorted(c.items())) if active else None
     return obs
+
+
+RACE_PAIRS = [
+    # (options of connection A, expected, options of connection B, expected) - both go to the endpoint with the rogue certificate
+    ({"ca_certs": os.path.join(FIX, "testca.pem")}, "reject", {"cert_reqs": ssl.CERT_NONE}, "accept"),
+    ({"cert_reqs": ssl.CERT_NONE}, "accept", {"ca_certs": os.path.join(FIX, "testca.pem")}, "reject"),
+    ({}, "reject", {"cert_reqs": ssl.CERT_NONE, "check_hostname": False}, "accept"),
+    ({"cert_reqs": ssl.CERT_NONE, "check_hostname": False}, "accept", {}, "reject"),
+]
+
+
+def run_race(c):
+    """Two connections are made at the same time by two threads of the application, each with its own TLS options: what one
+    connection verifies does not depend on the other. Real TLS on loopback; the threads run under the line-level scheduler:
+    thread A is stopped at one line of the connection set-up (place given by the case, or nowhere: the probe run) and
+    thread B makes its whole connection before A goes on."""
+    import websocket
+
+    from .. import simkit
+
+    obs = Obs()
+    rig = tlsrig.rig()
+    rig.settle(2.0)
+    rig.clear()
+    saved = {k: os.environ.pop(k, None) for k in ENV_KEYS}
+    oa, ea, ob, eb = RACE_PAIRS[c["pair"]]
+    url = f"wss://localhost:{rig.tls['rogue'].port}/race"
+    sched = simkit.Sched(preempt_at=c.get("preempt_at") or {"__probe__": {"1": 1}}, repo=REPO, max_steps=2_000_000)
+    res = {}
+
+    def one(name, opts):
+        try:
+            w = websocket.create_connection(url, timeout=5, sslopt=dict(opts))
+            res[name] = "accept"
+            w.shutdown()
+        except Exception as e:  # noqa: BLE001
+            res[name] = e
+
+    def body():
+        fth = simkit.FakeThreading(sched)
+        ta = fth.Thread(target=one, args=("A", oa), name="A")
+        tb = fth.Thread(target=one, args=("B", ob), name="B")
+        ta.start()
+        tb.start()
+        ta.join()
+        tb.join()
+
+    try:
+        try:
+            main = sched.run(body, wall_limit=60.0)
+        except simkit.HarnessStuck as e:
+            raise HarnessError(str(e))
+    finally:
+        for k, v in saved.items():
+            os.environ.pop(k, None)
+            if v is not None:
+                os.environ[k] = v
+    c11_funcs.update({k: max(v, c11_funcs.get(k, 0)) for k, v in sched._fcount.items()})
+    if sched.hang:
+        raise HarnessError(f"race scenario did not finish: {sched.hang}")
+    if main.exc is not None:
+        raise HarnessError(f"race scenario failed in the harness: {main.exc!r}")
+    for name, exp, opts in (("A", ea, oa), ("B", eb, ob)):
+        got = res.get(name)
+        if exp == "accept" and got != "accept":
+            obs.fail(exc_bucket(f"concurrent-connects|valid-configuration-refused|{name}", got), f"connection {name} (sslopt {sorted(opts)}) failed while the other thread connected: {got!r}; preempted in {sched.preempted_in}")
+        elif exp == "reject" and got == "accept":
+            obs.fail(f"concurrent-connects|untrusted-chain-accepted|{name}", f"connection {name} (sslopt {sorted(opts)}) accepted the rogue certificate while the other thread connected with its own options; preempted in {sched.preempted_in}")
+        elif exp == "reject" and not isinstance(got, (ssl.SSLError, websocket.WebSocketException, OSError)):
+            obs.fail(exc_bucket(f"concurrent-connects|internal-error|{name}", got), repr(got))
+    obs.cls = ("concurrent-connects", f"pair:{c['pair']}", f"preempted:{int(bool(sched.preempted_in))}", f"switches:{min(sched.switches, 6)}")
+    obs.nt = repr((c["pair"], sorted((c.get("preempt_at") or {}).items()))) if sched.preempted_in else None
+    return obs
+
+
+c11_funcs = {}
 
 
 def _judge_redirect(c, obs, rig, target, before, raised, url):
@@ -400,6 +507,14 @@ def configs():
                     for cr, ch in ((None, None), ("NONE", None), ("REQUIRED", False), ("NONE", True)):
                         yield {"scheme": "wss", "via": via, "keep_alive": ka, "host": "localhost", "cert": cert, "proxy": False, "trust": trust, "cert_reqs": cr,
                                "check_hostname": ch, "server_hostname": None, "env": None}
+    # the CA bundle is replaced on disk between two connections of the same process: the later connection trusts what the file holds now
+    for cert in ("good", "rogue", "other"):
+        for api in (None, "create_connection", "app"):
+            for proxy in (False, True):
+                for trust, env in (("ca_certs=testca", None), ("none", "file")):
+                    for cr, ch in ((None, None), ("REQUIRED", False)):
+                        yield {"swap": True, "api": api, "scheme": "wss", "host": "localhost", "cert": cert, "proxy": proxy, "trust": trust, "cert_reqs": cr, "check_hostname": ch,
+                               "server_hostname": None, "env": env}
     # the documented ssl_version option must not change what is verified
     import warnings
 
@@ -415,10 +530,27 @@ def configs():
 
 def jobs(tier, seed):
     n = 16
-    return [{"name": f"cfg-{i}", "kind": "cfg", "shard": i, "of": n, "tier": tier} for i in range(n)]
+    return [{"name": f"cfg-{i}", "kind": "cfg", "shard": i, "of": n, "tier": tier} for i in range(n)] + [
+        {"name": f"race-{i}", "kind": "race", "shard": i, "of": 8, "lines": 40 if tier == "quick" else 400} for i in range(8)]
 
 
 def run_job(job, coll):
+    if job["kind"] == "race":
+        # which functions (and how many lines of each) the connection set-up executes: learnt from a run without preemption
+        run_race({"pair": 0})
+        # (the places where a connection's TLS configuration is put together and applied)
+        funcs = {k: v for k, v in c11_funcs.items() if k.startswith(("_http.py:", "_ssl_compat.py:")) or k in ("_core.py:connect", "_core.py:__init__", "_core.py:create_connection")}
+        i = 0
+        for pair in range(len(RACE_PAIRS)):
+            for key in sorted(funcs):
+                # thread A executes each line of the function up to twice before B starts (it runs first): 2 * lines covers both threads' passes
+                for line in range(1, min(funcs[key], job["lines"]) + 1):
+                    i += 1
+                    if i % job["of"] == job["shard"]:
+                        coll.check({"pair": pair, "preempt_at": {key: {str(line): [1, 1000000]}}}, run_case)
+        coll.exhaustive[f"concurrent connects: thread A stopped at each of the first {job['lines']} lines of every set-up function while B connects"] = True
+        coll.notes["race_functions"] = len(funcs)
+        return
     allc = list(configs())
     for i, c in enumerate(allc):
         if i % job["of"] == job["shard"]:
